@@ -74,6 +74,19 @@ CHECKS["C10"] = dict(level="fault_enumeration", ref="6/C10",
         "fuzzer would be the better tool there and is not built). One known finding (closure blow-up on deeply nested JSGF).",
    technique=TECH + "; storage-fault injection on text artefacts behind the file seams plus structured text mutation")
 
+CHECKS["C11"] = dict(level="exploration", ref="6/C11",
+   text="decoder_lattice requested at plan-chosen instants (mid-utterance, after the end, twice without new audio; narrow beams / truncated audio so that the best path misses the "
+        "final state): single start/end, every node on a start-to-end path, acyclic, time adjacency of every link (with the connector-node reading for <s>/</s>), labels along ANY "
+        "path form a path of the independent reference automaton (product construction), first-best segmentation is a lattice path, second request returns the same object.",
+   note=DEC_NOTE + " Word beams wider than the default are not used in this profile (lattice construction is quadratic in word exits; performance is out of scope).",
+   technique=TECH + "; graph invariants and lattice x reference-NFA product on lattices taken at scheduled instants")
+CHECKS["C12"] = dict(level="exploration", ref="6/C12",
+   text="N-best iterators consumed to plan-chosen lengths (abandoned or run dry) on lattices taken at plan-chosen instants: non-increasing scores, every entry the word sequence of a "
+        "start-to-end lattice path with a node walk along links; lattice_bestpath = independent longest-path DP; link and best-path posteriors <= 1 within the log-add rounding "
+        "bound; forward total = backward total. Borderline for the technique: the schedule decides where lattices are taken and how far iterators run; the numeric clauses are "
+        "invariants of each lattice reached.",
+   note=DEC_NOTE, technique=TECH + "; invariant monitors over N-best iterators and forward-backward on scheduled lattices")
+
 NA = {
  "C02": "pure function of grammar, dictionary, model and frame scores: no schedule, fault, history or crash point; needs an independent max-plus reference (differential testing), another technique family",
  "C05": "pure function of one JSGF text (a compiler-correctness property): nothing to schedule or fault; language enumeration against a JSGF interpreter is the right tool",
